@@ -61,6 +61,14 @@ PROPS = {
         "assumptions": ["group elements are compared only with the CL crate's PartialEq (their serial forms are not canonical)"],
         "trusted_base": [],
     },
+    "C19": {
+        "level_text": "Theorems in Coq about an executable model of the tails file: layout (2-byte tag + fixed-size tails) with read_back for every index (u32 index arithmetic in N; past-the-end reads fail), and TailsFileWriter::write as a step machine over (temp file, final file, BufWriter buffer, hasher input, drop guard) with an error or a process abort injected at ANY step, for every buffer capacity and every list of tails: the final name is absent or holds the full content named by base58(SHA-256(content)); an error leaves no temp file (with the exact characterisation of when one could: guard defused before rename, fault at the rename — which refuted the code before the fix commit); a surviving temp file after an abort is a prefix. Tied to the code on every run: fail-point hooks (cfg-guarded) inject an I/O error at every step in-process and an abort at every step in a child process for registries below and above one 8 KiB buffer; the directory listing, returned (path, hash), and file bytes are compared with the model, whose SHA-256 and base58 are independent Gallina implementations; read-back through TailsFileReader::access_tail in access sequences on one reader including out-of-range indices.",
+        "level_note": "Trusted: Coq kernel, extraction, harness/driver glue, translator pins (tag size, version bytes, rename-before-defuse order), the fail-point hook. Modelled not verified: tails.rs; BufWriter spilling is modelled (capacity 8192) but after an abort only 'temp content is a prefix' is compared. OS-level crash consistency (power loss, no fsync, rename(2) atomicity) is outside what a process-level model and harness can exhibit: partial.",
+        "theorems": ["C19_read_back", "C19_atomic_publish", "C19_write_tails_spec", "C19_unfixed_refuted", "C19_pins", "C19_transfer_write", "C19_transfer_read"],
+        "rule": "write cases: registry sizes 1,2,5,31,32 (quick; +40 thorough) i.e. 3..81 tails, fault = none | error at every step 0..T+5 | abort at every step (small sizes) or at boundary steps + random (large sizes, all in thorough), each run in a fresh directory; read cases: per size one full scan (all indices + 3 past the end) and random access sequences with out-of-range and near-u32::MAX indices on one reader; non-trivial = all; distinct = distinct abstract case",
+        "assumptions": ["RevocationTailsGenerator::try_next + Tail::to_bytes define 'the k-th generated tail' (the harness regenerates them independently of the writer)"],
+        "trusted_base": [],
+    },
 }
 
 NOTES = "MANIFEST.json is generated by bin/mkmanifest from bin/props.py; see DESIGN.md"
